@@ -14,6 +14,13 @@ abstraction of the real post-state.
 Oracle (independent of the model): what the property text demands, evaluated on `git status
 --porcelain`, the index entries, `git stash list`, `git for-each-ref`, the changed paths of every new
 commit and the bytes of user files before/after the command.
+
+Layouts: `flat` (Xvc root = Git root) and `nested` (Git repository at the top, `xvc init` in `proj/`,
+commands run in `proj/` or `proj/data/`).  All observations are taken at the top of the Git work tree,
+so paths are always relative to it; in the nested layout the paths xvc may stage/commit are
+`proj/.xvc/**` and files named .gitignore/.xvcignore BELOW `proj/`; everything outside `proj/`
+(the user's own .gitignore files included) is user state.  The Lean model takes the Xvc root as a
+parameter (`isXvcPathAt root`, driver line `root proj`).
 """
 import concurrent.futures, hashlib, json, os, shutil, stat
 from common import Check, run_lines, shrink
@@ -23,18 +30,30 @@ IGN = ('.gitignore', '.xvcignore')
 WORKERS = 8
 
 
-def is_xvc_path(p):
-    """the paths the property lets xvc stage/commit: below .xvc/ and files NAMED .gitignore / .xvcignore"""
-    return p.startswith('.xvc/') or os.path.basename(p) in IGN
+NESTED = 'proj/'          # the Xvc root of the nested layout, relative to the top of the Git work tree
 
 
-def is_target(p):
+def pfx_of(case):
+    """the Xvc root of a case as a path prefix relative to the top of the Git work tree ('' = the Git root itself)"""
+    return NESTED if case.get('layout') == 'nested' else ''
+
+
+def is_xvc_path(p, pfx=''):
+    """the paths the property lets xvc stage/commit: below <xvc root>/.xvc/ and files NAMED .gitignore / .xvcignore
+    below the xvc root. A path outside the xvc root is never xvc's, whatever it is called."""
+    if not p.startswith(pfx):
+        return False
+    q = p[len(pfx):]
+    return q.startswith('.xvc/') or os.path.basename(q) in IGN
+
+
+def is_target(p, pfx=''):
     """xvc-managed data area of the scratch repositories (the commands' own targets), not user state"""
-    return p.startswith('data/') and os.path.basename(p) not in IGN
+    return p.startswith(pfx + 'data/') and os.path.basename(p) not in IGN
 
 
-def is_user(p):
-    return not is_xvc_path(p) and not is_target(p)
+def is_user(p, pfx=''):
+    return not is_xvc_path(p, pfx) and not is_target(p, pfx)
 
 
 # ------------------------------------------------------------------------------------------------
@@ -89,6 +108,62 @@ def build_plain_template(chk, xvc):
     t.git('commit', '-q', '-m', 'user commit on side')
     t.git('checkout', '-q', 'main')
     return t
+
+
+# nested layout: the Git repository carries the same user files at the top (all OUTSIDE the Xvc root), the user's own
+# top-level .gitignore, and a project directory `proj/` with user files of its own in which `xvc init` is run
+NESTED_OUT = TRACKED_USER + ['.gitignore']
+NESTED_IN = [NESTED + p for p in ('in_t.txt', 'in_m.txt', 'in_del.txt', 'sub/a.txt', 'sub/deep/c.txt', 'keep.gitignore', 'sub/.gitignore')]
+
+
+def build_nested_template(chk, xvc, plain=False):
+    """git repository at the top, Xvc project in the subdirectory proj/ (plain=True: `xvc init` not yet run)"""
+    t = Sandbox(chk.scratch, 'c15-template-nested' + ('-plain' if plain else ''), xvc)
+    proj = t.path(NESTED.rstrip('/'))
+    t.git('init', '-q', '-b', 'main')
+    for p in NESTED_OUT + NESTED_IN:
+        t.write(p, ('# user rules\n*.tmp\n' if p.endswith('.gitignore') else f'{p}\n{TEN}'))
+    t.git('add', '-A')
+    t.git('commit', '-q', '-m', 'user root')
+    if not plain:
+        rc, out, err = t.x('init', cwd=proj)
+        if rc != 0 or not os.path.isdir(os.path.join(proj, '.xvc')):
+            chk.fatal('xvc init failed in the subdirectory of the nested template repository', out + err)
+        for i in range(3):
+            t.write(f'{NESTED}data/d{i}.bin', f'data-{i}\n' * (i + 2))
+        t.x('file', 'track', 'data/d0.bin', cwd=proj)
+        t.x('pipeline', 'step', 'new', '--step-name', 's0', '--command', 'echo s0', cwd=proj)
+    t.git('tag', 'v0')
+    t.git('branch', 'other')
+    t.git('checkout', '-q', '-b', 'side')
+    t.write('side.txt', 'only on side\n')
+    t.git('add', 'side.txt')
+    t.git('commit', '-q', '-m', 'user commit on side')
+    t.git('checkout', '-q', 'main')
+    rc, out, err = t.git('status', '--porcelain')
+    left = [l for l in out.splitlines() if not l.endswith('data/d1.bin') and not l.endswith('data/d2.bin')]
+    if left:
+        chk.fatal('nested template repository is not clean after setup (xvc init/track in proj/ did not commit?)', out)
+    return t
+
+
+TEMPLATE_BUILDERS = {
+    'xvc': lambda chk, xvc: build_template(chk, xvc),
+    'plain': lambda chk, xvc: build_plain_template(chk, xvc),
+    'nested': lambda chk, xvc: build_nested_template(chk, xvc),
+    'nested_plain': lambda chk, xvc: build_nested_template(chk, xvc, plain=True),
+}
+
+
+def template_kind(case):
+    init = case['cmd'][0] == 'init'
+    if case.get('layout') == 'nested':
+        return 'nested_plain' if init else 'nested'
+    return 'plain' if init else 'xvc'
+
+
+def build_templates(chk, xvc, kinds=None):
+    return {k: b(chk, xvc) for k, b in TEMPLATE_BUILDERS.items() if kinds is None or k in kinds}
 
 
 def instantiate(chk, tmpl, name):
@@ -262,6 +337,147 @@ def gen_case(rng, chk):
     return {'ops': [list(o) for o in ops], 'cmd': cmd, 'readonly': ro, 'setting': setting}
 
 
+# ---- nested layout: Xvc root = proj/ inside the Git work tree
+
+# commands as typed in the Xvc root proj/ (cwd '') or in proj/data/ (cwd 'data'); `../../storage1` is outside the Git work tree
+NESTED_RO = {
+    '': [['file', 'list'], ['pipeline', 'list'], ['pipeline', 'step', 'list'], ['root'], ['storage', 'list'],
+         ['file', 'hash', 'in_t.txt'], ['check-ignore', 'in_t.txt'], ['pipeline', 'dag'], ['pipeline', 'export'],
+         ['file', 'track', 'nonexistent.bin']],
+    'data': [['file', 'list'], ['pipeline', 'list'], ['root'], ['pipeline', 'step', 'list']],
+}
+NESTED_MUT = {
+    '': [['file', 'track', 'data/d1.bin'], ['file', 'track', 'data/d1.bin', 'data/d2.bin'], ['file', 'track', 'data/'],
+         ['file', 'recheck', 'data/d0.bin', '--recheck-method', 'symlink'],
+         ['pipeline', 'new', '--pipeline-name', 'p1'],
+         ['pipeline', 'step', 'new', '--step-name', 's1', '--command', 'echo hi'],
+         ['storage', 'new', 'local', '--name', 'st1', '--path', '../../storage1'],
+         ['file', 'copy', 'data/d0.bin', 'data/d9.bin'], ['file', 'move', 'data/d0.bin', 'data/d7.bin'],
+         ['file', 'untrack', 'data/d0.bin'], ['pipeline', 'run']],
+    'data': [['file', 'track', 'd1.bin'], ['file', 'track', 'd1.bin', 'd2.bin'],
+             ['pipeline', 'new', '--pipeline-name', 'p1'],
+             ['pipeline', 'step', 'new', '--step-name', 's1', '--command', 'echo hi']],
+}
+STAGED_KINDS = ('stage_new', 'stage_mod', 'stage_del')
+
+
+def staged_where(ops):
+    """where the user's staged changes of a nested case lie relative to the Xvc root: none | all-outside | all-inside | both"""
+    st = [o[1] for o in ops if o[0] in STAGED_KINDS]
+    if not st:
+        return 'none'
+    ins = [p for p in st if p.startswith(NESTED)]
+    return 'all-outside' if not ins else ('all-inside' if len(ins) == len(st) else 'both')
+
+
+def gen_state_nested(rng, chk):
+    """user state of the nested layout. Every path is used by at most one op (no path with a staged AND an unstaged
+    change: K-C15-mixed stays excluded); the staged changes are all outside proj/, all inside, on both sides, or absent."""
+    ops = []
+    if rng.random() < 0.25:
+        ops += [('stash', i) for i in range(rng.choice([1, 1, 2]))]
+    r = rng.random()
+    if r < 0.12:
+        ops.append(('detach',))
+    elif r < 0.22:
+        ops.append(('branch', 'other'))
+    plain = lambda p: not p.endswith('.gitignore')
+    pools = {'out': [p for p in NESTED_OUT if plain(p)], 'in': [p for p in NESTED_IN if plain(p)]}
+    for v in pools.values():
+        rng.shuffle(v)
+    pre = {'out': '', 'in': NESTED}
+    n = [0]
+
+    def fresh():
+        n[0] += 1
+        return n[0]
+    r = rng.random()
+    sides = ['out'] if r < 0.45 else ['out', 'in'] if r < 0.70 else ['in'] if r < 0.82 else []
+    for side in sides:
+        for k in rng.sample(['new', 'mod', 'del'], rng.choice([1, 1, 2, 3])):
+            if k == 'new':
+                i = fresh()
+                ops.append(('stage_new', pre[side] + rng.choice([f'new{i}.txt', f'dir/new{i}.txt', f'newdir/deep/n{i}.txt']), f'new {i}\n'))
+            elif k == 'mod':
+                q = pools[side].pop()
+                ops.append(('stage_mod', q, f'{q}\nstaged modification\n{TEN}'))
+            else:
+                ops.append(('stage_del', pools[side].pop()))
+    # a staged edit of an ignore file of the user's: outside proj/ it is an ordinary user file, inside it is an xvc-class path
+    if 'out' in sides and rng.random() < 0.15:
+        ops.append(('stage_mod', 'dir/.gitignore', '# user rules\n*.tmp\n*.o\n'))
+    if 'in' in sides and rng.random() < 0.12:
+        ops.append(('stage_mod', NESTED + 'sub/.gitignore', '# user rules\n*.tmp\n*.o\n'))
+    for side in ('out', 'in'):
+        if rng.random() < 0.4:
+            q = pools[side].pop()
+            ops.append(('edit', q, f'{q}\n{TEN}unstaged edit\n'))
+        if rng.random() < 0.12:
+            ops.append(('rm', pools[side].pop()))
+        if rng.random() < 0.4:
+            i = fresh()
+            ops.append(('untracked', pre[side] + rng.choice([f'untracked{i}.txt', f'dir/untracked{i}.log', f'scratch/u{i}.txt']), f'untracked {i}\n'))
+    if rng.random() < 0.2:
+        ops.append(('untracked', rng.choice(['notes.gitignore', 'dir/my.xvcignore', NESTED + 'notes.gitignore', NESTED + 'sub/my.xvcignore']), 'user notes\n'))
+    # ignore files OUTSIDE the Xvc root are user files: an unstaged edit stays unstaged, an untracked one stays untracked
+    r = rng.random()
+    if r < 0.14:
+        ops.append(('edit', '.gitignore', '# user rules\n*.tmp\n*.bak\n'))
+    elif r < 0.22:
+        ops.append(('untracked', 'newdir/.gitignore', '*.cache\n'))
+    elif r < 0.30:
+        ops.append(('untracked', 'dir/.xvcignore', '*.skip\n'))
+    elif r < 0.36:
+        ops.append(('edit', 'keep.gitignore', '# user rules\n*.tmp\n*.bak\n'))
+    # ignore files INSIDE the Xvc root: a pending user edit may be swept into xvc's commit
+    r = rng.random()
+    if r < 0.08:
+        ops.append(('edit', NESTED + '.gitignore', None))      # content filled in at apply time (append to what xvc wrote)
+    elif r < 0.14:
+        ops.append(('untracked', NESTED + 'newdir/.gitignore', '*.cache\n'))
+    if rng.random() < 0.06:
+        ops.append(('hook_fail',))
+    for o in ops:
+        chk.count('nested:state:' + o[0])
+    return ops
+
+
+def pick_setting(rng, ops):
+    total = sum(w for _, w in SETTINGS)
+    x = rng.random() * total
+    for s, w in SETTINGS:
+        x -= w
+        if x < 0:
+            break
+    setting = dict(s)
+    if setting.get('to_branch') == 'other' and ('branch', 'other') in ops:
+        setting['to_branch'] = 'main'
+    return setting
+
+
+def gen_case_nested(rng, chk):
+    ops = gen_state_nested(rng, chk)
+    ro = rng.random() < 0.35
+    cwd = 'data' if rng.random() < 0.25 else ''
+    cmd = rng.choice((NESTED_RO if ro else NESTED_MUT)[cwd])
+    setting = pick_setting(rng, ops)
+    chk.count('layout:nested')
+    chk.count('nested:cwd=' + (NESTED + cwd))
+    chk.count('nested:staged=' + staged_where(ops))
+    chk.count('nested:cmd:' + ' '.join(cmd[:3 if cmd[0] == 'pipeline' and len(cmd) > 2 and cmd[1] == 'step' else 2]))
+    chk.count('nested:setting:' + (json.dumps(setting, sort_keys=True) if setting else 'default'))
+    return {'layout': 'nested', 'cwd': cwd, 'ops': [list(o) for o in ops], 'cmd': cmd, 'readonly': ro, 'setting': setting}
+
+
+def gen_init_case_nested(rng, chk):
+    """`xvc init` in the subdirectory proj/ of a git repository that carries user work inside and outside proj/"""
+    ops = [o for o in gen_state_nested(rng, chk) if not (o[0] == 'edit' and o[1] == NESTED + '.gitignore')]
+    chk.count('layout:nested')
+    chk.count('nested:staged=' + staged_where(ops))
+    chk.count('nested:cmd:init')
+    return {'layout': 'nested', 'cwd': '', 'ops': [list(o) for o in ops], 'cmd': ['init'], 'readonly': False, 'setting': {}}
+
+
 def argv_of(case):
     s = case['setting']
     a = []
@@ -370,25 +586,26 @@ def oracle(case, pre, post, chain, base_reached):
     msgs = []
     s = case['setting']
     mode = git_mode(case)
+    pfx = pfx_of(case)                    # '' or 'proj/': paths outside the Xvc root are user paths, whatever their names
     # "the stash list ... unchanged"
     if pre['stash'] != post['stash']:
         msgs.append(f"stash list changed: {len(pre['stash'])} -> {len(post['stash'])} entries "
                     f"(new: {[x[:8] for x in post['stash'] if x not in pre['stash']]}, lost: {[x[:8] for x in pre['stash'] if x not in post['stash']]})")
     # "the user's staged changes stay staged"
     for p in sorted(set(pre['index']) | set(post['index'])):
-        if is_user(p) and pre['index'].get(p) != post['index'].get(p):
+        if is_user(p, pfx) and pre['index'].get(p) != post['index'].get(p):
             if s.get('from_ref') and pre['trees'].get(pre['head_sha'], {}).get(p) != post['trees'].get(post['head_sha'], {}).get(p):
                 continue                      # the requested checkout rewrites paths that differ between the two refs
             msgs.append(f"index entry of user path {p}: {pre['index'].get(p)} -> {post['index'].get(p)}")
     # "unstaged and untracked files stay as they were" (presence and bytes of every user file git can see)
     for p in sorted(set(pre['wt']) | set(post['wt'])):
-        if is_user(p) and pre['wt'].get(p) != post['wt'].get(p):
+        if is_user(p, pfx) and pre['wt'].get(p) != post['wt'].get(p):
             if s.get('from_ref') and pre['trees'].get(pre['head_sha'], {}).get(p) != post['trees'].get(post['head_sha'], {}).get(p):
                 continue
             msgs.append(f"work tree user file {p}: {pre['wt'].get(p)} -> {post['wt'].get(p)}")
     # `git status --porcelain` of user paths
     def ustat(o):
-        return [e for e in o['status'] if is_user(e[3:])]
+        return [e for e in o['status'] if is_user(e[3:], pfx)]
     if ustat(pre) != ustat(post) and not s.get('from_ref'):
         a, b = ustat(pre), ustat(post)
         msgs.append(f"git status of user paths changed: lost {[e for e in a if e not in b]}, new {[e for e in b if e not in a]}")
@@ -422,11 +639,11 @@ def oracle(case, pre, post, chain, base_reached):
     if not base_reached:
         msgs.append(f"HEAD {post['head_sha']} does not descend from the commit xvc started from")
     for c in chain:
-        bad = [p for p in c['changed'] if not is_xvc_path(p)]
+        bad = [p for p in c['changed'] if not is_xvc_path(p, pfx)]
         if bad:
             msgs.append(f"commit {c['sha'][:8]} ({c['subject']!r}) contains user files: {bad}")
     # "read-only commands create no commit"
-    pending = [p for p in set(pre['wt']) | set(pre['index']) if is_xvc_path(p) and pre['wt'].get(p) != pre['index'].get(p)]
+    pending = [p for p in set(pre['wt']) | set(pre['index']) if is_xvc_path(p, pfx) and pre['wt'].get(p) != pre['index'].get(p)]
     if case['readonly'] and not pending and chain:
         msgs.append(f"read-only command created {len(chain)} commit(s): {[c['subject'] for c in chain]}")
     if case['readonly'] and not pending and not s.get('from_ref') and pre['index'] != post['index']:
@@ -452,21 +669,22 @@ def short(r):
 def model_request(case, pre, post, chain=None):
     shas = sorted(pre['trees'])
     ids = {s: i for i, s in enumerate(shas)}
-    L = ['reset']
+    pfx = pfx_of(case)
+    L = ['reset', f"root {pfx.rstrip('/') or '-'}"]      # the Xvc root inside the Git work tree (model: isXvcPathAt root)
     for s in shas:
         L.append(f'commit {ids[s]} -')
         for p, b in sorted(pre['trees'][s].items()):
-            if not is_target(p):
+            if not is_target(p, pfx):
                 L.append(f'tree {ids[s]} {p} {b}')
     for r, s in sorted(pre['refs'].items()):
         if r != 'refs/stash':
             L.append(f'ref {short(r)} {ids[s]}')
     L.append(f"head branch {pre['head'][1]}" if pre['head'][0] == 'branch' else f"head detached {ids[pre['head_sha']]}")
     for p, b in sorted(pre['index'].items()):
-        if not is_target(p):
+        if not is_target(p, pfx):
             L.append(f'index {p} {b}')
     for p, b in sorted(pre['wt'].items()):
-        if not is_target(p):
+        if not is_target(p, pfx):
             L.append(f'wt {p} {b}')
     for i, s in enumerate(pre['stash']):
         L.append(f'stash u{i}')
@@ -481,13 +699,13 @@ def model_request(case, pre, post, chain=None):
     if case['cmd'][0] == 'init':
         # `xvc init` calls handle_git_automation three times and writes between the calls; the write sets of the
         # phases are read off the trees of the commits it made (user-side predictions stay the model's own)
-        cur = {p: b for p, b in pre['wt'].items() if is_xvc_path(p)}
+        cur = {p: b for p, b in pre['wt'].items() if is_xvc_path(p, pfx)}
         phases = []
         for c in reversed(chain or []):
-            ch = {p: c['tree'].get(p) for p in c['changed'] if is_xvc_path(p) and cur.get(p) != c['tree'].get(p)}
+            ch = {p: c['tree'].get(p) for p in c['changed'] if is_xvc_path(p, pfx) and cur.get(p) != c['tree'].get(p)}
             cur.update(ch)
             phases.append(ch)
-        rest = {p: post['wt'].get(p) for p in set(cur) | {q for q in post['wt'] if is_xvc_path(q)} if cur.get(p) != post['wt'].get(p)}
+        rest = {p: post['wt'].get(p) for p in set(cur) | {q for q in post['wt'] if is_xvc_path(q, pfx)} if cur.get(p) != post['wt'].get(p)}
         phases.append(rest)
         while len(phases) < 3:
             phases.append({})
@@ -498,7 +716,7 @@ def model_request(case, pre, post, chain=None):
     else:
         L.append(f'phase {hook}')
         for p in sorted(set(pre['wt']) | set(post['wt'])):
-            if is_xvc_path(p) and pre['wt'].get(p) != post['wt'].get(p):
+            if is_xvc_path(p, pfx) and pre['wt'].get(p) != post['wt'].get(p):
                 L.append(f"ch {p} {post['wt'].get(p) or '-'}")
         L.append(f'phase {hook}')
     L.append('run')
@@ -517,13 +735,13 @@ def parse_model(ans):
             'stash': [x for x in d['stash'].split(',') if x], 'index': tree(d['index']), 'wt': tree(d['wt']), 'new': new}
 
 
-def real_canon(pre, post, chain, ids):
+def real_canon(pre, post, chain, ids, pfx=''):
     ids = dict(ids)
     n = len(ids)
     for k, c in enumerate(reversed(chain)):
         ids[c['sha']] = n + k
     cid = lambda s: str(ids.get(s, 'unknown:' + str(s)[:8]))
-    nt = lambda t: {p: b for p, b in t.items() if not is_target(p)}
+    nt = lambda t: {p: b for p, b in t.items() if not is_target(p, pfx)}
     return {
         'head': f"branch:{post['head'][1]}" if post['head'][0] == 'branch' else f"detached:{cid(post['head_sha'])}",
         'refs': {short(r): cid(s) for r, s in post['refs'].items() if r != 'refs/stash'},
@@ -550,13 +768,16 @@ def tie_diff(model, real):
 
 def run_case(chk, tmpl, name, case):
     if isinstance(tmpl, dict):
-        tmpl = tmpl['plain' if case['cmd'][0] == 'init' else 'xvc']
+        tmpl = tmpl[template_kind(case)]
     sb = instantiate(chk, tmpl, name)
+    pfx = pfx_of(case)
+    # the directory the xvc command is typed in: the Xvc root (flat: the Git root; nested: proj/) or a directory below it
+    cwd = os.path.normpath(os.path.join(sb.root, pfx, case.get('cwd', '')))
     try:
         for op in case['ops']:
             op = tuple(op)
-            if op[0] == 'edit' and op[1] == '.gitignore' and op[2] is None:
-                op = ('edit', '.gitignore', (sb.read('.gitignore') or b'').decode() + '# a rule the user added\n*.swp\n')
+            if op[0] == 'edit' and len(op) > 2 and op[2] is None:
+                op = ('edit', op[1], (sb.read(op[1]) or b'').decode() + '# a rule the user added\n*.swp\n')
             apply_op(sb, op)
         st = case['setting']
         env = None
@@ -565,10 +786,10 @@ def run_case(chk, tmpl, name, case):
         elif st.get('via') == 'local':
             # [git] table of the local (git-ignored) configuration file
             body = '\n[git]\n' + ''.join(f"{c.split('=')[0].split('.')[1]} = {c.split('=')[1]}\n" for c in st.get('cfg', []))
-            with open(sb.path('.xvc/config.local.toml'), 'a') as f:
+            with open(sb.path(pfx + '.xvc/config.local.toml'), 'a') as f:
                 f.write(body)
         pre = observe(sb)
-        rc, out, err = sb.x(*argv_of(case), env=env)
+        rc, out, err = sb.x(*argv_of(case), env=env, cwd=cwd)
         post = observe(sb)
         s = case['setting']
         base = pre['head_sha']
@@ -610,7 +831,7 @@ def check_tie(chk, model_bin, results, stream):
             st['outside_fragment'] += 1
             r['model'] = m
             continue
-        real = real_canon(r['pre'], r['post'], r['chain'], ids)
+        real = real_canon(r['pre'], r['post'], r['chain'], ids, pfx_of(r['case']))
         d = tie_diff(m, real)
         st['compared'] += 1
         r['model'], r['real'] = m, real
@@ -659,11 +880,43 @@ CORPUS = [
     {'ops': [['edit', 'keep.gitignore', 'edited by the user\n']], 'cmd': ['file', 'list'], 'readonly': True, 'setting': {}},
     {'ops': [['untracked', 'notes.gitignore', 'u\n']], 'cmd': ['file', 'track', 'data/d1.bin'], 'readonly': False,
      'setting': {'cfg': ['git.auto_commit=false', 'git.auto_stage=true']}},
+    # ---- nested layout: Git repository at the top, Xvc root in proj/ (appended: the indices above are referred to elsewhere)
+    # seeded C15-1, minimised: ONE staged file, outside the Xvc root; any state-changing command
+    {'layout': 'nested', 'cwd': '', 'ops': [['stage_new', 'notes.txt', 'user notes\n']], 'cmd': ['file', 'track', 'data/d1.bin'],
+     'readonly': False, 'setting': {}},
+    # seeded C15-1 as demonstrated: staged M + A + D all outside proj/, an untracked file
+    {'layout': 'nested', 'cwd': '', 'ops': [['stage_mod', 'm.txt', 'more text\n'], ['stage_new', 'notes.txt', 'user notes\n'], ['stage_del', 'del.txt'],
+                                          ['untracked', 'scratch.txt', 'unstaged\n']],
+     'cmd': ['file', 'track', 'data/d1.bin'], 'readonly': False, 'setting': {}},
+    # control: staged files inside AND outside
+    {'layout': 'nested', 'cwd': '', 'ops': [['stage_new', 'proj/inside.txt', 'c\n'], ['stage_new', 'outside.txt', 'c\n']],
+     'cmd': ['file', 'track', 'data/d1.bin'], 'readonly': False, 'setting': {}},
+    # all staged outside, command typed in a directory below the Xvc root; read-only command; detached HEAD; --to-branch
+    {'layout': 'nested', 'cwd': 'data', 'ops': [['stage_mod', 't.txt', 'changed\n'], ['stage_del', 'dir/a.txt']], 'cmd': ['file', 'track', 'd1.bin'],
+     'readonly': False, 'setting': {}},
+    {'layout': 'nested', 'cwd': 'data', 'ops': [['stage_new', 'new1.txt', 'n\n'], ['stage_del', 'del.txt']], 'cmd': ['file', 'list'], 'readonly': True, 'setting': {}},
+    {'layout': 'nested', 'cwd': '', 'ops': [['detach'], ['stage_new', 'new1.txt', 'n\n']], 'cmd': ['pipeline', 'new', '--pipeline-name', 'p1'],
+     'readonly': False, 'setting': {}},
+    {'layout': 'nested', 'cwd': '', 'ops': [['stash', 0], ['stage_new', 'new1.txt', 'n\n']], 'cmd': ['file', 'track', 'data/d1.bin'], 'readonly': False,
+     'setting': {'to_branch': 'newb'}},
+    # ignore files outside the Xvc root are user files: unstaged edit, untracked .gitignore/.xvcignore, look-alikes on both sides
+    {'layout': 'nested', 'cwd': '', 'ops': [['edit', '.gitignore', '# user rules\n*.tmp\n*.bak\n'], ['untracked', 'newdir/.gitignore', '*.cache\n'],
+                                          ['untracked', 'dir/.xvcignore', '*.skip\n'], ['untracked', 'proj/notes.gitignore', 'u\n']],
+     'cmd': ['file', 'track', 'data/d1.bin'], 'readonly': False, 'setting': {}},
+    {'layout': 'nested', 'cwd': '', 'ops': [['edit', '.gitignore', '# user rules\n*.tmp\n*.bak\n'], ['untracked', 'newdir/.gitignore', '*.cache\n']],
+     'cmd': ['file', 'track', 'data/d1.bin'], 'readonly': False, 'setting': {'cfg': ['git.auto_commit=false', 'git.auto_stage=true']}},
+    # `xvc init` in proj/ with staged work outside it (three handle_git_automation calls)
+    {'layout': 'nested', 'cwd': '', 'ops': [['stage_new', 'notes.txt', 'user notes\n'], ['stage_mod', 'm.txt', 'more text\n']], 'cmd': ['init'],
+     'readonly': False, 'setting': {}},
 ]
 
 
 def describe(r):
-    return {'user_state_ops': r['case']['ops'], 'command': 'xvc ' + ' '.join(argv_of(r['case'])),
+    c = r['case']
+    where = {} if c.get('layout') != 'nested' else {
+        'layout': f"git repository at the top, Xvc root in {NESTED}; command typed in {os.path.join(NESTED, c.get('cwd', ''))}; paths of the ops are relative to the git root",
+        'staged_changes_relative_to_xvc_root': staged_where(c['ops'])}
+    return {**where, 'user_state_ops': r['case']['ops'], 'command': 'xvc ' + ' '.join(argv_of(r['case'])),
             'git_status_before': r['pre']['status'], 'git_status_after': r['post']['status'],
             'stash_before': len(r['pre']['stash']), 'stash_after': len(r['post']['stash']),
             'new_commits': [{'subject': c['subject'], 'changed': c['changed']} for c in r['chain']],
@@ -701,18 +954,31 @@ def run(chk: Check):
         'ignored files are invisible to the modelled git commands (abstraction: work tree = tracked + untracked-not-ignored files)',
         'the data area `data/` of the scratch repositories (the commands\' own targets) is not user state',
         'a user\'s pending edit of a file NAMED .gitignore/.xvcignore may be swept into an xvc commit (first sentence of the property); such states do not count for "read-only commands create no commit"',
+        'nested layout: the Xvc root is a subdirectory of the Git work tree; files outside it named .gitignore/.xvcignore are user files (xvc neither writes nor may stage them); one subdirectory depth (proj/) is executed, the theorems hold for every root path',
     ]
     chk.extra['git_version'] = os.popen('git --version').read().strip()
-    tmpl = {'xvc': build_template(chk, xvc), 'plain': build_plain_template(chk, xvc)}
+    tmpl = build_templates(chk, xvc)
     ncases = 260 if quick else 2200
     ninit = 25 if quick else 250
+    nnested = 150 if quick else 1300
+    nnested_init = 14 if quick else 140
     chk.extra['rule'] = (f'corpus ({len(CORPUS)} fixed cases: F4 on its four exit paths, detached HEAD, pathspec) + {len(KNOWN_REPLAYS)} known-finding replays (oracle only) + '
                          f'{ncases} generated cases (+ {ninit} `xvc init` cases in a plain git repository, three handle_git_automation calls) = random user state (pre-existing stash entries 0-2, detached HEAD / other branch, staged new/modified/deleted files, unstaged edits and deletions, '
                          'untracked files, user files named *.gitignore/*.xvcignore, user edits of real ignore files, rejecting pre-commit hook) x one of '
                          f'{len(RO_CMDS)} read-only or {len(MUT_CMDS)} state-changing xvc commands x one of {len(SETTINGS)} settings (default, auto_stage, automation off, use_git=false given with -c, through XVC_ environment variables or in .xvc/config.local.toml, --skip-git, '
                          '--to-branch new/existing, --from-ref same-tree/other-tree/missing). Every case: real repository, oracle on before/after observations, model prediction diffed with the real post-state. '
-                         'Non-trivial = the user state has at least one staged or unstaged change or stash entry; distinct by (ops, command, setting).')
+                         'Non-trivial = the user state has at least one staged or unstaged change or stash entry; distinct by (ops, command, setting). '
+                         f'NESTED LAYOUT (git repository at the top, `xvc init` in the subdirectory {NESTED}, user files inside and outside it, the user\'s own .gitignore/.xvcignore files outside it are user files): '
+                         f'{sum(1 for c in CORPUS if c.get("layout") == "nested")} of the corpus cases (seeded C15-1 minimised and as demonstrated first) + {nnested} generated cases (commands typed in {NESTED} or {NESTED}data/; '
+                         'staged changes all outside / all inside / on both sides of the Xvc root / none, see generator_distribution nested:staged=*) '
+                         f'+ {nnested_init} `xvc init` cases run in {NESTED} of a plain git repository; same oracle evaluated at the top of the git work tree, model run with `root proj`.')
+    # the flat streams first (unchanged for a given seed), then the nested ones
     cases = list(CORPUS) + [gen_case(chk.rng, chk) for _ in range(ncases)] + [gen_init_case(chk.rng, chk) for _ in range(ninit)]
+    cases += [gen_case_nested(chk.rng, chk) for _ in range(nnested)] + [gen_init_case_nested(chk.rng, chk) for _ in range(nnested_init)]
+    for c in CORPUS:
+        if c.get('layout') == 'nested':
+            chk.count('layout:nested')
+            chk.count('nested:staged=' + staged_where(c['ops']))
     results = run_cases(chk, tmpl, cases, 'case')
     have_model = os.path.exists(model)
     if not have_model:
@@ -725,11 +991,20 @@ def run(chk: Check):
             chk.nontrivial.add(hashlib.sha1(json.dumps(c, sort_keys=True).encode()).hexdigest())
         chk.count('commits_created:' + str(len(r['chain'])))
         chk.count('git_mode:' + git_mode(c))
+        if c.get('layout') == 'nested':
+            chk.count('nested:commits_created:' + str(len(r['chain'])))
+            if staged_where(c['ops']) == 'all-outside' and r['chain'] and git_mode(c) == 'commit':
+                chk.count('nested:all-staged-outside-and-xvc-committed')       # the situation of seeded C15-1
         if r['oracle']:
             first_oracle.setdefault(signature(c, r['oracle'])['finding'], r)
         if len(chk.samples) < 6 and r['chain'] and r['pre']['cached'] and chk.evaluations % 5 == 0:
             chk.samples.append(describe(r))
-    chk.tie['streams']['oracle'] = {'cases': len(results), 'failing': sum(1 for r in results if r['oracle'])}
+    chk.tie['streams']['oracle'] = {'cases': len(results), 'failing': sum(1 for r in results if r['oracle']),
+                                    'nested_cases': sum(1 for r in results if r['case'].get('layout') == 'nested'),
+                                    'nested_failing': sum(1 for r in results if r['case'].get('layout') == 'nested' and r['oracle'])}
+    chk.extra['nested_layout'] = {k[len('nested:'):]: v for k, v in sorted(chk.distribution.items())
+                                  if k.startswith('nested:staged=') or k.startswith('nested:cwd=') or k.startswith('nested:commits_created')
+                                  or k == 'nested:all-staged-outside-and-xvc-committed'}
     for kind, r in first_oracle.items():
         small = minimise(chk, tmpl, r, lambda x, k=kind: bool(x['oracle']) and signature(x['case'], x['oracle'])['finding'] == k)
         if not small['oracle']:
@@ -737,10 +1012,11 @@ def run(chk: Check):
         chk.oracle_failure(small['oracle'][0], small['case'], describe(small), signature=signature(small['case'], small['oracle']))
     # tie
     if have_model:
-        bad = check_tie(chk, model, [r for r in results if not r['oracle']], 'generated')
+        bad = check_tie(chk, model, [r for r in results if not r['oracle'] and r['case'].get('layout') != 'nested'], 'generated')
+        bad += check_tie(chk, model, [r for r in results if not r['oracle'] and r['case'].get('layout') == 'nested'], 'nested')
         seen = set()
         for r, d in bad:
-            key = d[0].split(':')[0]
+            key = (r['case'].get('layout', 'flat'), d[0].split(':')[0])
             if key in seen:
                 continue
             seen.add(key)
@@ -756,7 +1032,7 @@ def run(chk: Check):
                 small, dd = r, d
             else:
                 dd = b[0][1]
-            chk.disagreement('generated', small['case'], small.get('real'), small.get('model'), '; '.join(dd)[:1500])
+            chk.disagreement('nested' if small['case'].get('layout') == 'nested' else 'generated', small['case'], small.get('real'), small.get('model'), '; '.join(dd)[:1500])
         chk.tie['streams'].pop('shrink', None)
     # known-finding replays: judged by the oracle alone
     kres = run_cases(chk, tmpl, KNOWN_REPLAYS, 'known')
@@ -773,7 +1049,7 @@ def run(chk: Check):
 
 def replay(chk: Check, data):
     xvc = chk.build_xvc()
-    tmpl = {'xvc': build_template(chk, xvc), 'plain': build_plain_template(chk, xvc)}
+    tmpl = build_templates(chk, xvc, {template_kind(f['case']) for f in data.get('failures', [])})
     for i, f in enumerate(data.get('failures', [])):
         r = run_case(chk, tmpl, f'replay-{i}', f['case'])
         chk.evaluations += 1
